@@ -1,4 +1,5 @@
 RT = "crates/tower-resilience-retry/src/"
+AD = "crates/tower-resilience-adaptive/src/"
 CORE = "crates/tower-resilience-core/src/"
 NOOP = ""
 WITHDRAW_CAS = "if ret.is_ok() { g = GB { granted: g.granted + 1, deposited: g.deposited }; vx_grants = vx_grants + 1; }   // #withdrawal_accounted_exactly_when_the_cas_succeeds [C08]"
@@ -13,11 +14,18 @@ WITNESS = [
 ]
 UNIT = dict(
     serves=["C08", "C13"],
-    files={"budget": RT + "budget.rs", "aimd": CORE + "aimd.rs"},
+    files={"budget": RT + "budget.rs", "aimd": CORE + "aimd.rs", "alg": AD + "algorithm.rs"},
     default_file="budget",
     rules=[("R1",)],
     extra_params=[],
     fns={
+        "Vegas::adjust_limit": dict(file="alg", rules=[
+            ("R14", "queue_estimate", ["smoothed_rtt", "min_rtt", "current_limit"]),
+            ("R7", [NOOP, NOOP, NOOP, NOOP, "  // #limit_stays_within_bounds [C13]"])]),
+        "Vegas::record_failure@ConcurrencyAlgorithm": dict(file="alg", rules=[("R7", [NOOP, "  // #limit_stays_within_bounds [C13]"])]),
+        "Vegas::limit@ConcurrencyAlgorithm": dict(file="alg", rules=[("R7", [NOOP])]),
+        "Aimd::record_failure@ConcurrencyAlgorithm": dict(file="alg"),
+        "Aimd::limit@ConcurrencyAlgorithm": dict(file="alg"),
         "AimdController::new": dict(file="aimd", rules=[
             ("sub", "R7-new", r"AtomicUsize::new\(initial\)", "AtomicUsize::new(Ghost(config), initial, Tracked(()))", 1),
         ]),
@@ -52,7 +60,17 @@ UNIT = dict(
         ]),
         "AimdBudget::balance@RetryBudget": dict(rules=[("R7", [NOOP])]),
     },
+    frame=[
+        dict(name="vegas_limit_written_only_in_contracted_functions", tags=["C13"],
+             pattern=r"self\s*\.\s*limit\s*\.\s*(store|swap|fetch_\w+|compare_exchange\w*)",
+             glob=AD + "algorithm.rs", only_in=["alg:Vegas::adjust_limit", "alg:Vegas::record_failure@ConcurrencyAlgorithm"]),
+        dict(name="aimd_limit_written_only_in_contracted_functions", tags=["C13", "C08"],
+             pattern=r"self\s*\.\s*limit\s*\.\s*(store|swap|fetch_\w+|compare_exchange\w*)",
+             glob=CORE + "aimd.rs", only_in=["aimd:AimdController::record_success", "aimd:AimdController::record_failure", "aimd:AimdController::record_successes", "aimd:AimdController::reset"]),
+    ],
     types=[
+        ("struct", "Vegas", "alg"),
+        ("struct", "Aimd", "alg"),
         ("struct", "AimdConfig", "aimd"),
         ("struct", "AimdController", "aimd"),
         ("struct", "TokenBucketBudget", "budget", {"extra": ["initial"]}),
